@@ -374,3 +374,230 @@ Definition w3_man : manifest := [Dep "a" 0 (RCompat 1 None None)].
 Lemma self_dependency_witness :
   exists_solution w3_idx w3_man = None /\ valid_solution w3_idx w3_man [] = false.
 Proof. vm_compute. split; reflexivity. Qed.
+
+(* ------------------------------------------------------------------ termination of LockFile::new *)
+
+(* The `acc.insert(..).is_none()` guard makes collect_packages terminate (also on cyclic
+   indices): every call that recurses adds a new entry name, and names are in bijection with
+   the packages met so far.  Fuel above the number of resolved packages is never exhausted. *)
+
+Definition lstate := (lockacc * namer)%type.
+
+Definition acc_inv (st : lstate) : Prop :=
+  namer_inv (snd st)
+  /\ forall en e, In (en, e) (fst st) -> lookup_ppkg (fst e) (assigned (snd st)) = Some en.
+
+Definition done_b (st : lstate) (p : ppkg) : bool :=
+  match lookup_ppkg p (assigned (snd st)) with
+  | Some en => acc_mem en (fst st)
+  | None => false
+  end.
+
+Definition nm_ext (nm nm' : namer) : Prop :=
+  forall q e, lookup_ppkg q (assigned nm) = Some e -> lookup_ppkg q (assigned nm') = Some e.
+
+Definition ext (st st' : lstate) : Prop :=
+  nm_ext (snd st) (snd st')
+  /\ forall en, acc_mem en (fst st) = true -> acc_mem en (fst st') = true.
+
+Lemma ext_refl st : ext st st.
+Proof. split; [intros q e H; exact H|auto]. Qed.
+
+Lemma ext_trans a b c : ext a b -> ext b c -> ext a c.
+Proof. intros [H1 H2] [H3 H4]. split; [intros q e H; auto|auto]. Qed.
+
+Lemma done_ext st st' p : ext st st' -> done_b st p = true -> done_b st' p = true.
+Proof.
+  intros [H1 H2]. unfold done_b. destruct (lookup_ppkg p (assigned (snd st))) as [en|] eqn:E; [|discriminate].
+  rewrite (H1 _ _ E). apply H2.
+Qed.
+
+Definition mu (r : resolution) (st : lstate) : nat :=
+  List.length (filter (fun p => negb (done_b st p)) (all_packages r)).
+
+Lemma filter_length_le {A} (f g : A -> bool) l :
+  (forall x, f x = true -> g x = true) ->
+  (List.length (filter f l) <= List.length (filter g l))%nat.
+Proof.
+  intros H. induction l as [|x t IH]; cbn; [lia|].
+  destruct (f x) eqn:E; [rewrite (H _ E); cbn; lia|]. destruct (g x); cbn; lia.
+Qed.
+
+Lemma filter_length_lt {A} (f g : A -> bool) l x :
+  (forall y, f y = true -> g y = true) -> In x l -> f x = false -> g x = true ->
+  (List.length (filter f l) < List.length (filter g l))%nat.
+Proof.
+  intros H Hin Hf Hg. induction l as [|y t IH]; [destruct Hin|]. cbn.
+  destruct Hin as [->|Hin].
+  - rewrite Hf, Hg. cbn. pose proof (filter_length_le f g t H). lia.
+  - specialize (IH Hin). destruct (f y) eqn:E; [rewrite (H _ E); cbn; lia|].
+    destruct (g y); cbn; lia.
+Qed.
+
+Lemma mu_le r st st' : ext st st' -> (mu r st' <= mu r st)%nat.
+Proof.
+  intros He. unfold mu. apply filter_length_le. intros p Hp.
+  apply negb_true_iff in Hp. apply negb_true_iff.
+  destruct (done_b st p) eqn:E; [|reflexivity]. rewrite (done_ext _ _ _ He E) in Hp. discriminate.
+Qed.
+
+Lemma mu_lt r st st' p :
+  ext st st' -> In p (all_packages r) -> done_b st p = false -> done_b st' p = true ->
+  (mu r st' < mu r st)%nat.
+Proof.
+  intros He Hin H1 H2. unfold mu. eapply filter_length_lt with (x := p); auto.
+  - intros q Hq. apply negb_true_iff in Hq. apply negb_true_iff.
+    destruct (done_b st q) eqn:E; [|reflexivity]. rewrite (done_ext _ _ _ He E) in Hq. discriminate.
+  - now rewrite H2.
+  - now rewrite H1.
+Qed.
+
+Lemma mu_bound r st : (mu r st <= List.length (all_packages r))%nat.
+Proof.
+  unfold mu. induction (all_packages r) as [|x t IH]; cbn; [lia|].
+  destruct (negb (done_b st x)); cbn; lia.
+Qed.
+
+Lemma entryname_eqb_eq a b : entryname_eqb a b = true <-> a = b.
+Proof.
+  destruct a as [s i], b as [t j]. unfold entryname_eqb; cbn.
+  rewrite andb_true_iff, String.eqb_eq, N.eqb_eq. split; [intros [-> ->]; reflexivity|intros [= -> ->]; auto].
+Qed.
+
+Lemma acc_mem_In en acc : acc_mem en acc = true <-> exists e, In (en, e) acc.
+Proof.
+  unfold acc_mem. rewrite existsb_exists. split.
+  - intros ([en' e] & Hin & H). cbn in H. apply entryname_eqb_eq in H. subst. eauto.
+  - intros (e & Hin). exists (en, e). split; [exact Hin|]. now apply entryname_eqb_eq.
+Qed.
+
+Lemma acc_insert_In en e acc en' e' :
+  In (en', e') (acc_insert en e acc) -> (en' = en /\ e' = e) \/ In (en', e') acc.
+Proof.
+  induction acc as [|[x y] t IH]; cbn.
+  - intros [[= <- <-]|[]]. now left.
+  - destruct (entryname_eqb en x) eqn:E.
+    + apply entryname_eqb_eq in E. subst x. intros [[= <- <-]|H]; [now left|right; now right].
+    + intros [[= <- <-]|H]; [right; now left|]. destruct (IH H); [now left|right; now right].
+Qed.
+
+Lemma acc_insert_mem en e acc en' :
+  acc_mem en' (acc_insert en e acc) = true <-> en' = en \/ acc_mem en' acc = true.
+Proof.
+  induction acc as [|[x y] t IH]; cbn.
+  - rewrite orb_false_r, entryname_eqb_eq. intuition congruence.
+  - destruct (entryname_eqb en x) eqn:E; cbn.
+    + apply entryname_eqb_eq in E. subst x. rewrite orb_true_iff, entryname_eqb_eq.
+      unfold acc_mem. intuition.
+    + rewrite !orb_true_iff. unfold acc_mem in IH. rewrite IH. intuition.
+Qed.
+
+Lemma name_children_props nm deps :
+  namer_inv nm ->
+  namer_inv (snd (name_children nm deps)) /\ nm_ext nm (snd (name_children nm deps)).
+Proof.
+  revert nm. induction deps as [|[n [d q]] t IH]; cbn; intros nm Hinv.
+  - split; [exact Hinv|intros x e H; exact H].
+  - destruct (namer_name nm n q) as [e nm1] eqn:E1.
+    assert (Hnm1 : nm1 = snd (namer_name nm n q)) by now rewrite E1.
+    destruct (name_children nm1 t) as [rest nm2] eqn:E2. cbn.
+    assert (Hinv1 : namer_inv nm1) by (rewrite Hnm1; now apply namer_name_inv).
+    destruct (IH nm1 Hinv1) as [H1 H2]. rewrite E2 in H1, H2. cbn in H1, H2.
+    split; [exact H1|]. intros x y Hx. apply H2. rewrite Hnm1. now apply namer_name_spec.
+Qed.
+
+Lemma collect_list_terminates mt r f :
+  (forall name p st, In p (all_packages r) -> acc_inv st -> (mu r st < f)%nat ->
+     exists en st', collect f mt r name p st = Ok (en, st') /\ acc_inv st' /\ ext st st' /\ done_b st' p = true) ->
+  forall ds st, (forall e, In e ds -> In (snd (snd e)) (all_packages r)) ->
+    acc_inv st -> (mu r st < f)%nat ->
+    exists st', collect_list (collect f mt r) ds st = Ok st' /\ acc_inv st' /\ ext st st'.
+Proof.
+  intros Hrec. induction ds as [|e t IH]; intros st Hall Hinv Hmu; cbn.
+  - exists st. split; [reflexivity|]. split; [exact Hinv|apply ext_refl].
+  - destruct (Hrec (fst e) (snd (snd e)) st (Hall _ (or_introl eq_refl)) Hinv Hmu)
+      as (en & st1 & Hc & Hinv1 & Hext1 & _).
+    rewrite Hc. cbn.
+    destruct (IH st1) as (st2 & Hc2 & Hinv2 & Hext2).
+    + intros e' He'. apply Hall. now right.
+    + exact Hinv1.
+    + pose proof (mu_le r _ _ Hext1). lia.
+    + exists st2. split; [exact Hc2|]. split; [exact Hinv2|eapply ext_trans; eauto].
+Qed.
+
+Lemma collect_terminates mt r : closed mt r ->
+  forall fuel name p st, In p (all_packages r) -> acc_inv st -> (mu r st < fuel)%nat ->
+    exists en st', collect fuel mt r name p st = Ok (en, st')
+                /\ acc_inv st' /\ ext st st' /\ done_b st' p = true.
+Proof.
+  intros Hcl. induction fuel as [|f IH]; intros name p st Hp Hinv Hmu; [lia|].
+  cbn. destruct (Hcl _ Hp) as (deps & Hdeps & Hall). rewrite Hdeps.
+  destruct Hinv as [Hninv Hacc].
+  set (en := fst (namer_name (snd st) name p)).
+  set (nm1 := snd (namer_name (snd st) name p)).
+  set (edeps := fst (name_children nm1 deps)).
+  set (nm2 := snd (name_children nm1 deps)).
+  destruct (namer_name_spec (snd st) name p) as [Hen Hext0]. fold en nm1 in Hen, Hext0.
+  assert (Hinv1 : namer_inv nm1) by (unfold nm1; now apply namer_name_inv).
+  destruct (name_children_props nm1 deps Hinv1) as [Hinv2 Hext12]. fold nm2 in Hinv2, Hext12.
+  assert (Hext02 : nm_ext (snd st) nm2) by (intros q e Hq; apply Hext12, Hext0, Hq).
+  assert (Hen2 : lookup_ppkg p (assigned nm2) = Some en) by (apply Hext12, Hen).
+  set (acc' := acc_insert en (p, edeps) (fst st)).
+  set (s1 := (acc', nm2) : lstate).
+  assert (Hinv_s1 : acc_inv s1).
+  { split; [exact Hinv2|]. intros en' e' Hin. cbn in Hin.
+    apply acc_insert_In in Hin as [[-> ->]|Hin]; [exact Hen2|]. cbn. apply Hext02. now apply Hacc. }
+  assert (Hext_s1 : ext st s1).
+  { split; [exact Hext02|]. intros en' Hm. cbn. apply acc_insert_mem. now right. }
+  assert (Hdone_s1 : done_b s1 p = true).
+  { unfold done_b. cbn. rewrite Hen2. apply acc_insert_mem. now left. }
+  destruct (acc_mem en (fst st)) eqn:Hex.
+  - exists en, s1. repeat split; auto; try apply Hinv_s1; try apply Hext_s1.
+  - assert (Hnd : done_b st p = false).
+    { unfold done_b. destruct (lookup_ppkg p (assigned (snd st))) as [e|] eqn:E; [|reflexivity].
+      assert (e = en) as ->; [|exact Hex].
+      unfold en, namer_name. now rewrite E. }
+    pose proof (mu_lt r st s1 p Hext_s1 Hp Hnd Hdone_s1) as Hlt.
+    destruct (collect_list_terminates mt r f IH deps s1 Hall Hinv_s1) as (st' & Hc & Hinv' & Hext').
+    { lia. }
+    fold en nm1 edeps nm2 acc'. fold s1. rewrite Hc.
+    exists en, st'. split; [reflexivity|]. split; [exact Hinv'|]. split; [eapply ext_trans; eauto|].
+    eapply done_ext; eauto.
+Qed.
+
+Lemma lock_roots_terminates mt r : closed mt r ->
+  forall fuel roots deps st,
+  (forall e, In e roots -> exists p, precise mt r (snd e) = Ok p /\ In p (all_packages r)) ->
+  acc_inv st -> (List.length (all_packages r) < fuel)%nat ->
+  exists l, lock_roots fuel mt r roots deps st = Ok l.
+Proof.
+  intros Hcl fuel roots. induction roots as [|[id d] t IH]; cbn; intros deps st Hall Hinv Hfuel.
+  - eauto.
+  - destruct (Hall (id, d) (or_introl eq_refl)) as (p & Hp & Hin). cbn in Hp. rewrite Hp.
+    destruct (collect_terminates mt r Hcl fuel id p st Hin Hinv) as (en & st' & Hc & Hinv' & _).
+    { pose proof (mu_bound r st). lia. }
+    rewrite Hc. apply IH; [|exact Hinv'|exact Hfuel]. intros e He. apply Hall. now right.
+Qed.
+
+(* T0 lock_no_crash, strong form: LockFile::new returns a lock file *)
+Theorem lock_new_terminates_gen mt idx man a fuel :
+  valid_solution idx man a = true ->
+  (forall d, edge idx man a d ->
+     exists w, index_dep_version mt (index_packages a) d = Some w /\ alookup (dep_key d) a = Some w) ->
+  (List.length (all_packages (Res idx (index_packages a))) < fuel)%nat ->
+  exists l, lock_new fuel mt (Res idx (index_packages a)) man = Ok l.
+Proof.
+  intros Hv Hlk Hfuel. unfold lock_new. apply lock_roots_terminates; auto.
+  - eapply closed_of_lookups; eauto.
+  - now apply roots_precise.
+  - split; [apply namer_inv_empty|intros en e []].
+Qed.
+
+Theorem lock_new_ok_fix idx man a fuel :
+  valid_solution idx man a = true ->
+  (List.length (all_packages (Res idx (index_packages a))) < fuel)%nat ->
+  exists l, lock_new fuel matches_fix (Res idx (index_packages a)) man = Ok l.
+Proof.
+  intros Hv. apply lock_new_terminates_gen; [exact Hv|]. intros d He.
+  destruct (lookup_fix_right _ _ _ _ Hv He) as (w & H1 & H2 & _). eauto.
+Qed.
